@@ -19,6 +19,7 @@ RULE = (
     "spelling. Oracle: identical ops (opcode, parameter values, relative jump structure), routine tables and "
     "position-mark values. Non-trivial = the two renderings differ in >= 3 of the listed dimensions; distinct by hash "
     "of (AST, tapes)."
+    ' A twin-library stage (60 / 600 generated projects): the macros of a program are put into two library files that differ in one letter; a comment and a blank line in front of one of them must change neither ops, tables nor position marks. One layout tape in eight is the minified layout; redundant zeros number 1-3 or (1 in 64) 40 / 700 / 5000.'
 )
 ASSUMPTIONS = [
     "separators are inserted only between tokens; comments never start with '?:' ; block comments contain no '*/'",
